@@ -4,14 +4,16 @@
 
      r.prog           the program (nodes as in DelayedProg)
      r.obs.raised     "" or the name of the exception raised while building / computing
-     r.obs.val        the computed value of the last node (tagged JSON value)
+     r.obs.vals       per node: the value it computed to when ALL Delayed nodes of the program were handed
+                      to one dask.compute (tagged JSON values; [t |-> "none"] for plain nodes)
+     r.obs.seen       per node: its value was observed (all Delayed nodes, or only the last one)
      r.obs.keys       per node: class number of its .key (first node with the same key), 0 = plain node
      r.obs.named      per node: the key equals the dask_key_name given (TRUE where none was given)
      r.obs.nouts      per node: len() of the Delayed and the number of elements iteration gave
                       equal the nout given (TRUE where the node is not an nout call)
-     r.ref            value of the last node in the EAGER Python program ([t |-> "err"] if it
-                      raised): the reference guard - a disagreement with Vals is reported as
-                      clause "Guard", which the harness treats as a machinery error
+     r.ref            per node: its value in the EAGER Python program ([t |-> "err"] if that raised):
+                      the reference guard - a disagreement with Vals is reported as clause "Guard",
+                      which the harness treats as a machinery error
 
    TLC evaluates the program itself (Vals, Idents) and decides the clauses.     *)
 EXTENDS DelayedProg, TraceIO
@@ -37,16 +39,17 @@ Bad(r) ==
       dl == { i \in DOMAIN p : I[i].d }
       fresh(i) == I[i].key.t = "uniq"
   IN IF ~(WellFormed(p) /\ Buildable(p) /\ I[n].d) THEN {"NotAProgram"}
-     ELSE IF Conv(r.ref) # I[n].val THEN {"Guard"}
-     ELSE IF IsErr(I[n].val) THEN Clause("ErrorExpected", r.obs.raised # "")
+     ELSE IF \E i \in DOMAIN p : Conv(r.ref[i]) # I[i].val THEN {"Guard"}
+     ELSE IF \E i \in DOMAIN p : IsErr(I[i].val) THEN Clause("ErrorExpected", r.obs.raised # "")
      ELSE IF r.obs.raised # "" THEN {"UnexpectedRaise"}
-     ELSE Clause("Value", Conv(r.obs.val) = I[n].val)
+     ELSE \* every Delayed node comes back with its own value, all of them computed in one dask.compute
+          Clause("Value", r.obs.seen[n] /\ \A i \in DOMAIN p : r.obs.seen[i] => (I[i].d /\ Conv(r.obs.vals[i]) = I[i].val))
           \* plain nodes have no key; delayed nodes have one
           \cup Clause("Modes", \A i \in DOMAIN p : (r.obs.keys[i] # 0) <=> I[i].d)
           \* with pure=True (and for operators / attribute access): same key iff same call on equal arguments
           \cup Clause("PureKeys", \A i, j \in dl : (~fresh(i) /\ ~fresh(j))
                                     => ((r.obs.keys[i] = r.obs.keys[j]) <=> (I[i].key = I[j].key)))
-          \* impure calls and wrapped objects get a fresh key
+          \* impure calls and objects wrapped without pure=True get a fresh key
           \cup Clause("FreshKeys", \A i, j \in dl : (i # j /\ fresh(i)) => r.obs.keys[i] # r.obs.keys[j])
           \cup Clause("KeyName", \A i \in DOMAIN p : r.obs.named[i])
           \cup Clause("Nout", \A i \in DOMAIN p : r.obs.nouts[i])
